@@ -402,10 +402,40 @@ def fault_study(ctx, oracle):
         r['seed'] = c['seed']
         nf += sum(1 for o in r['obs'] if [10] in o['outs'])
         for kind, fields, what, step in oracle(r):
-            ctx.violation(kind, fields, what, {'source': 'oracle (fault history, not modelled)',
+            ctx.violation(kind, fields, what, {'source': 'oracle (fault history)',
                                               'step': step, 'case': strip(r, step)})
+    # correspondence with Model/SchedFault.v (TickFault k)
+    exprs = []
+    for r in out['cases']:
+        evs = '[' + '; '.join('(TickFault %d)' % e[1] if e[0] == 'tickf' else '(Ev %s)' % ev_term(e)
+                              for e in r['events']) + ']'
+        exprs.append('obs_xtrace %s %s' % (cfg_term(r['graph']), evs))
+    nmis, first = 0, None
+    try:
+        vals = ctx.coq_eval(['DV.Model.Sched', 'DV.Model.SchedObs', 'DV.Model.SchedFault'], exprs,
+                            z_scope=False, chunk=40)
+        for r, v in zip(out['cases'], vals):
+            mm = first_mismatch(r['obs'], [canon_model(t) for t in v])
+            if mm:
+                nmis += 1
+                first = first or (r, mm)
+    except core.CoqEvalError as e:
+        nmis, first = -1, (None, str(e.args[-1])[-1500:])
+    if first and ctx.nviol == 0:
+        r, mm = first
+        if r is None:
+            ctx.broken('model evaluation of the fault histories failed', mm, {'source': 'correspondence'})
+        else:
+            i, keys, a, m = mm
+            ctx.broken('correspondence fault histories: model SchedFault.v and implementation disagree',
+                       'case seed=%s step=%d event=%s differing=%s\nimpl=%s\nmodel=%s'
+                       % (r.get('seed'), i, r['events'][i] if i < len(r['events']) else None, keys,
+                          json.dumps(a)[:1500], json.dumps(m)[:1500]),
+                       {'source': 'correspondence', 'step': i, 'case': strip(r, i), 'impl': a, 'model': m})
     ctx.note('fault_histories', {'histories': len(cases), 'dispatches_with_a_refused_run_id': nf,
-                                 'note': 'oracle only; the refused run id is not an event of the model'})
+                                 'correspondence_mismatches': nmis,
+                                 'note': 'TickFault k of Model/SchedFault.v: correspondence + oracle; the '
+                                         'invariant theorems of Sched.v cover fault-free histories'})
     ctx.count(evaluations=len(cases))
 
 
